@@ -147,6 +147,7 @@ func (e *Endpoint) Inject(data []byte, from *UDPAddr) {
 	if e.Closed {
 		return
 	}
+	defer func() { recover() }() // the endpoint may be closed while the queue operation is pending
 	e.q.Send(seg{data: append([]byte(nil), data...), from: from})
 }
 
@@ -155,6 +156,7 @@ func (e *Endpoint) InjectErr(err error) {
 	if e.Closed {
 		return
 	}
+	defer func() { recover() }()
 	e.q.Send(seg{err: err})
 }
 
